@@ -4,7 +4,7 @@ from . import api_common as ac
 from .. import apiuniverse as au
 
 CALLS = ['compile', 'compile_nv', 'update_var', 'clear_frontend_caches', 'call_earlier', 'to_yaml', 'collect_edges', 'from_yaml',
-         'clear_model', 'decorator']
+         'clear_model', 'decorator', 'input']
 
 
 def run(ctx):
@@ -22,13 +22,14 @@ def run(ctx):
                         'default backend; the Fortran extension-module staleness (D24) is covered by a pinned reproducer only',
                         'the observable is the linear vector field probed on unit vectors plus the initial state']
     behs = ac.dedupe(ac.tlc_behaviours(ctx, 'C13', CALLS, 2 if tier == 'quick' else 3,
-                                       simulate=(250, 4) if tier == 'quick' else (3000, 6)))
+                                       simulate=(250, 4) if tier == 'quick' else (3000, 6),
+                                       extra=['FewFlags'] if tier == 'quick' else []))
     cy = ac.tlc_behaviours_cy(ctx, 6, plain=(tier == 'quick'))
     ctx.notes['yaml_circuit_behaviours'] = len(cy)
     behs = ac.dedupe(behs + cy)
     ctx.notes['deviations_detected_by'] = {d: ac.vacuity(ctx, CALLS, d) for d in ('OpCacheKeyedByName', 'NodeCacheSurvives', 'StateStash')}
     ctx.notes['deviations_detected_by'].update({d: ac.vacuity(ctx, ac.CY_CALLS, d, maxlen=4) for d in ('TemplateCacheByPath', 'ClearSkipsWhenNoIR')})
-    ac.judge_all(ctx, behs, 'compiled model after a history of API calls', cap=6000 if ctx.tier == "quick" else 45000)
+    ac.judge_all(ctx, behs, 'compiled model after a history of API calls', cap=4500 if ctx.tier == "quick" else 45000)
     ac.pinned_d09(ctx)
     for b in behs[len(behs) // 2: len(behs) // 2 + 2]:
         ctx.sample(dict(calls=b['calls'], expected_units=b['expM'], dev=b['dev']))
